@@ -79,7 +79,14 @@ def rule_3vl(P) -> RuleResult:
                         evals.append(i)
                         return _vals[i]
                     return NotImplemented
-                paths = Engine(P, on_attr=on_attr, on_call=on_call).paths(call, {'self': NODE, call.params[1]: ROW})
+                def oracle(term, ex):
+                    # a zero / empty value or any other non-boolean value is not the object False, True or None
+                    if isinstance(term, T) and term.op == 'cmp' and term.args[0] in ('is', 'is not') and len(term.args) == 3:
+                        a, b = term.args[1], term.args[2]
+                        if (a in (Z, V) and (b is None or isinstance(b, bool))) or (b in (Z, V) and (a is None or isinstance(a, bool))):
+                            return term.args[0] == 'is not'
+                    return None
+                paths = Engine(P, on_attr=on_attr, on_call=on_call, oracle=oracle).paths(call, {'self': NODE, call.params[1]: ROW})
                 want, upto = spec(vals)
                 label = f'{name[4:].upper()}({", ".join(_shown(c) for c in vals)})'
                 if len(paths) != 1 or paths[0].decisions:
